@@ -115,7 +115,8 @@ def run(tier, mode):
                 n_or += 1
                 dist['ocr'] += 1
                 if isinstance(d, H.Exn) or [x.trs for x in d.tracts] != [short + '14']:
-                    fail('ocr_scrub', {'text': text}, d if isinstance(d, H.Exn) else [d.pp_desc, [x.trs for x in d.tracts]], short + '14')
+                    fail('ocr_scrub', {'text': text}, d if isinstance(d, H.Exn) else [d.pp_desc, [x.trs for x in d.tracts]], short + '14',
+                         'C08-ocr-range2' if (g == 2 and d1) else None)
         # ---- several Twp/Rges in reading order; an equal explicit one does not hide a fixed one
         if i % 4 == 0:
             t2, g2 = r.choice(NUMS), r.choice([x for x in NUMS if x != 2])
@@ -128,6 +129,10 @@ def run(tier, mode):
                 want = [f'{t}{ns}{g}{ew}14', f'{t2}{ns}{g2}{ew}22', f'{t}{ns}{g}{ew}03']
                 if isinstance(d, H.Exn) or [x.trs for x in d.tracts] != want or f'fixed_twprge<{short}>' not in d.w_flags:
                     fail('multi_twprge', {'text': text, 'defaults': [ns, ew]}, d if isinstance(d, H.Exn) else [[x.trs for x in d.tracts], d.w_flags], [want, f'fixed_twprge<{short}>'])
+    d = H.call(pytrs.PLSSDesc, 'TlSN-R2W Sec 14: NE/4', config='ocr_scrub')
+    n_or += 1
+    if isinstance(d, H.Exn) or [x.trs for x in d.tracts] != ['15n2w14']:
+        fail('ocr_scrub', {'text': 'TlSN-R2W Sec 14: NE/4'}, d if isinstance(d, H.Exn) else [x.trs for x in d.tracts], '15n2w14', 'C08-ocr-range2')
     parts = {}
     if mode != 'search':
         parts['model_vs_code'] = plsscorr.run(tier, 'c08', extra_texts=texts[:200 if tier == 'quick' else 2500], configs=['', 's,e', 'ocr_scrub', 'n,w', 'ocr_scrub,s,e'],
